@@ -14,6 +14,14 @@
 (* reports whether it is exactly the documented clip Grid!GClip of the request (GridHistory!OnClippedGrid; the        *)
 (* statement does not prescribe the margin, so this is a note, not a verdict), and classifies the event by what an    *)
 (* under-keyed memo of GridHistory.tla would confuse it with.                                                         *)
+(* Round 3: the request goes through the entry point `entry` (model / contrib = model_contrib / full =                *)
+(* model_full_contrib; `pentry` the entry point of the same object's previous evaluation, "" none); `struct` is the   *)
+(* contribution list of the model as built (component sets in the numbering of GridHistory!HComps), `got` the         *)
+(* component sets of the spectra returned.  dev / tdev are the worst over ALL returned spectra, each against the same  *)
+(* spectrum of the full native computation.  TLC also checks                                                          *)
+(*   spectra  the returned spectra are those GridHistory!HPartsOf names for the entry point and the contribution list *)
+(*            AS BUILT (not as a previous per-component evaluation may have left it)                                  *)
+(* and classifies the event by the change of entry point.                                                             *)
 EXTENDS Grid, IOUtils, TLCExt
 VARIABLE l
 TraceLog == ndJsonDeserialize(IOEnv.TRACE_FILE)
@@ -33,6 +41,18 @@ ClipOk(e) == /\ e.lo >= 1 /\ e.hi <= Len(e.nat) /\ e.lo <= e.hi /\ e.n = e.hi - 
 \* ... that depends on the CURRENT request only: the grid a freshly built model returns for it
 GridOk(e) == e.lo = e.flo /\ e.hi = e.fhi
 ValueOk(e) == e.dev >= 0 /\ e.dev <= e.tol /\ e.tdev >= 0 /\ e.tdev <= e.tol
+\* GridHistory!HPartsOf over the contribution list as built
+SeqSet(q) == {q[i] : i \in DOMAIN q}
+Struct(e) == {SeqSet(e.struct[i]) : i \in DOMAIN e.struct}
+WantParts(e) == CASE e.entry = "model"   -> {UNION Struct(e)}
+                  [] e.entry = "contrib" -> Struct(e)
+                  [] OTHER                -> {{k} : k \in UNION Struct(e)}
+PartsOk(e) == {SeqSet(e.got[i]) : i \in DOMAIN e.got} = WantParts(e)
+EntryClass(e) == IF e.pentry = "" THEN "first"
+                 ELSE IF e.pentry = e.entry THEN "same-entry-point"
+                 ELSE IF e.entry = "model" THEN "model-after-per-component"
+                 ELSE IF e.pentry = "model" THEN "per-component-after-model"
+                 ELSE "per-component-after-other"
 
 Class(e) == IF e.plo = 0 THEN "first-evaluation"
             ELSE IF e.plo = e.flo /\ e.phi = e.fhi THEN "same-grid-again"
@@ -46,10 +66,11 @@ Bad(e, why) == PrintT(<<"BAD", ToJson([id |-> e.id, why |-> why])>>)
 Init == l = 1
 Step == /\ l <= Len(TraceLog)
         /\ LET e == TraceLog[l] IN
-               /\ PrintT(<<"CLS", ToJson([id |-> e.id, cls |-> Class(e), exact |-> Exact(e)])>>)
+               /\ PrintT(<<"CLS", ToJson([id |-> e.id, cls |-> Class(e), ecls |-> EntryClass(e), exact |-> Exact(e)])>>)
                /\ IF ClipOk(e) THEN TRUE ELSE Bad(e, "clip")
                /\ IF GridOk(e) THEN TRUE ELSE Bad(e, "grid-depends-on-history")
                /\ IF ValueOk(e) THEN TRUE ELSE Bad(e, "value")
+               /\ IF PartsOk(e) THEN TRUE ELSE Bad(e, "spectra")
         /\ l' = l + 1
 Spec == Init /\ [][Step]_l
 Accepted == TLCGet("stats").diameter - 1 = Len(TraceLog)
